@@ -62,6 +62,8 @@ type Step struct {
 	// validators that stay silent while a height is played to the end (decide)
 	Silent []int `json:"silent"`
 	Times  int   `json:"times"` // decide: extra copies of every payload (over other connections)
+	// decide: what the fake primary of view v proposes (index v; absent = T): honest primaries propose what THEY have pending
+	Views [][]string `json:"views"`
 }
 
 // Scenario is a complete script.
